@@ -93,6 +93,18 @@ theorem relational_on_numbers (op : Tok) (a c : Int) (f g : UInt64) :
   simp [evalNumericComparative, isFloatV]
   rfl
 
+/-- **two Go integers are equal exactly when they are the same integer** — compared integrally,
+    never through floating point (which would identify neighbours beyond 2^53) -/
+theorem int_equality_is_integral (a c : Int) :
+    checkEquality (.int a) (.int c) = .ok (a == c) := by
+  simp [checkEquality, Val.indirectInterface, Val.isValid, Val.kind, scalarKindConvertible, toInt,
+    bind, Except.bind, pure, Except.pure]
+
+/-- an integer and a float are compared numerically (the integer is promoted) -/
+theorem int_float_equality (a : Int) (f : UInt64) :
+    checkEquality (.int a) (.float f) = .ok ((intToFloat a) == f || (f64 (intToFloat a) == f64 f)) := by
+  simp [checkEquality, Val.indirectInterface, Val.isValid, Val.kind, scalarKindConvertible, pure, Except.pure]
+
 /-! ### `&&`, `||`, `!`, `?:` : booleans out, and only the operands that are needed -/
 
 variable (r : Rec) (env : Env)
